@@ -18,7 +18,9 @@ RULE = (
     "<= 6 (quick) / 8 (thorough) embedded in an expression, a declarator and a statement context. Oracle: a 10-line bracket "
     "matcher over the token stream says unbalanced => parse must raise ParseError (balanced strings carry no claim); injected "
     "text must always raise ParseError. Another exception type counts as 'not ParseError' and is reported (it is also a C06 "
-    "matter). Non-trivial: mutants whose first imbalance or injection lies after >= 10 valid tokens; distinct by construction "
+    "matter). Also (e) coverage-guided campaigns (atheris/libFuzzer, token sequences over a 150-entry vocabulary): an input containing "
+    "a token no C program contains or brackets that do not nest must be rejected; the committed corpus of earlier campaigns is replayed. "
+    "Non-trivial: mutants whose first imbalance or injection lies after >= 10 valid tokens; distinct by construction "
     "per program."
 )
 ASSUMPTIONS = ["base programs that the tree does not accept are skipped (acceptance is C01's claim)"]
@@ -189,6 +191,74 @@ def bracket_shard(arg):
     return st
 
 
+FUZZ_NONTOKENS = {"@", "`", "\\", "''", "08", "/*", "//", "\n#pragmas\n", "\n# x\n"}
+
+
+def fuzz_tokens(data):
+    from .. import fuzz_parse
+
+    return [fuzz_parse.VOCAB[b % len(fuzz_parse.VOCAB)] for b in data[1:4096]]
+
+
+def fuzz_must_reject(data, st, case):
+    """A token-mode fuzz input: this module's own judgement (bracket matcher,
+    non-token list) and, if it says malformed, the parse."""
+    from .. import fuzz_parse
+
+    if not data or data[0] % 2:
+        return
+    toks = fuzz_tokens(data)
+    what = None
+    bad = [t for t in toks if t in FUZZ_NONTOKENS]
+    if bad:
+        what = "non-token %r" % bad[0]
+    elif first_imbalance(toks) is not None:
+        what = "bracket imbalance at token %d" % first_imbalance(toks)
+    if what is None:
+        return
+    src = fuzz_parse.decode(data)
+    out = parse_outcome(src, "f.c", ("f.c", "g.c"))
+    st.evaluations += 1
+    if out[0] == "ast":
+        fail("accepted", case, src, "malformed input accepted (%s)" % what, "accepted:" + what.split(" ")[0])
+
+
+def fuzz_shard(arg):
+    """Coverage-guided campaign with the C18 oracle inside the target
+    (vlib/fuzz_parse.py, mode c18); buckets are re-decided here."""
+    from ..fuzzdrive import campaign_into
+
+    st = Stats()
+
+    def redecide(text, st, data):
+        try:
+            fuzz_must_reject(data, st, ("fuzz", data.hex()))
+        except CheckFailure as f:
+            st.failures.append(f.failure)
+
+    campaign_into(st, arg, "c18", redecide)
+    return st
+
+
+def fuzz_replay_shard(arg):
+    import json
+    import os
+
+    here, lo, hi = arg
+    st = Stats()
+    for hx in json.load(open(os.path.join(here, "corpus", "fuzz_c06.json")))[lo:hi]:
+        data = bytes.fromhex(hx)
+        n0 = st.evaluations
+        try:
+            fuzz_must_reject(data, st, ("fuzz", hx))
+        except CheckFailure as f:
+            st.failures.append(f.failure)
+        if st.evaluations > n0 and len(data) > 10:
+            st.nt(hx)
+        st.classes["fuzz_corpus_replayed"] += 1
+    return st
+
+
 def run(ctx):
     nmax = ctx.pick(6, 8)
     ctx.map(bracket_shard, [(n, f) for n in range(1, nmax + 1) for f in BR], chunksize=1)
@@ -200,10 +270,24 @@ def run(ctx):
         corners = corners[ctx.seed % 4 :: 4]
     progs = [(n, t, allb, maxtok) for n, t in corpus(big=False)] + corners
     ctx.map(corpus_shard, progs)
+    import json
+    import os
+
+    from ..fuzzdrive import campaign_args
+
+    cj = os.path.join(ctx.here, "corpus", "fuzz_c06.json")
+    if os.path.exists(cj):
+        ncorp = len(json.load(open(cj)))
+        step = max(1, (ncorp + 15) // 16)
+        ctx.map(fuzz_replay_shard, [(ctx.here, lo, lo + step) for lo in range(0, ncorp, step)])
+    ctx.map(fuzz_shard, campaign_args(ctx, 10, 20, 15000, 400000, 18))
     ctx.exhaustive = True
     ctx.extra["exhaustive_bounds"] = "all bracket strings of length <= %d in 3 contexts; all single-bracket mutants of every base program" % nmax
 
 
 def replay(subcheck, case):
     st = Stats()
+    if case[0] == "fuzz":
+        fuzz_must_reject(bytes.fromhex(case[1]), st, case)
+        return
     must_reject(list(case[1]), "replay", case, st)
